@@ -241,15 +241,14 @@ def construct(ex, st, fi, qual, args, kw, line):
     if init is None:
         yield st, o
         return
+    key = '$new%d' % o.oid
+    st.env[key] = o      # survives state cloning together with the caller env
     for st2, _ in inline(ex, st, fi, init, args, kw, line, self_obj=o):
+        o2 = st2.env.pop(key)
         hook = ex.contracts.after_construct
         if hook:
-            # the object may have been cloned with the state
-            o2 = _find_obj(st2, o.oid) or o
             hook(ex, st2, o2, line)
-            yield st2, o2
-        else:
-            yield st2, _find_obj(st2, o.oid) or o
+        yield st2, o2
 
 
 def _find_obj(st, oid):
@@ -607,10 +606,7 @@ def _eval_cond(ex, st, fi, var, conds, val):
     try:
         acc = True
         for c in conds:
-            r = list(ex.ev(c, st, fi))
-            if len(r) != 1:
-                raise Unsupported('forking generator condition')
-            acc = And(acc, ex.truth(r[0][1], st, c.lineno))
+            acc = And(acc, ex.ev_truth(c, st, fi))
     finally:
         if saved is _MISSING:
             del st.env[var]
@@ -638,8 +634,7 @@ def _least_range(ex, st, fi, var, conds, a, b, step, default, line):
     npc = len(probe.pc)
     p_r = _eval_cond(ex, probe, fi, var, conds, r)
     found = And(inr, p_r)
-    for extra in probe.pc[npc:]:
-        st.assume(Implies(inr, extra))
+    ex.merge_probe(st, probe, inr, npc)
     # quantified part: no earlier index satisfies P
     k = fresh_int('qk')
     try:
@@ -699,8 +694,7 @@ def _first_elem(ex, st, fi, var, elt, conds, lst, default, line):
         probe.assume(Not(none))
         npc = len(probe.pc)
         p = _eval_cond(ex, probe, fi, var, conds, e)
-        for extra in probe.pc[npc:]:
-            st.assume(Implies(Not(none), extra))
+        ex.merge_probe(st, probe, Not(none), npc)
         st.assume(Implies(Not(none), And(zint(n) > 0, p)))
     else:
         st.assume(none)
@@ -1218,7 +1212,7 @@ def _comp_list(ex, node, gen, st, fi, lst, line):
         try:
             c = True
             for cnd in gen.ifs:
-                c = And(c, ex.truth(ex.ev1(cnd, st1, fi), st1, line))
+                c = And(c, ex.ev_truth(cnd, st1, fi))
             if c is False:
                 return c, None
             if c is True:
@@ -1228,8 +1222,7 @@ def _comp_list(ex, node, gen, st, fi, lst, line):
                 g.assume(c)
                 npc = len(g.pc)
                 v = ex.ev1(node.elt, g, fi)
-                for extra in g.pc[npc:]:
-                    st1.assume(Implies(c, extra))
+                ex.merge_probe(st1, g, c, npc)
         finally:
             for n, sv in saved.items():
                 if sv is _MISSING:
